@@ -950,7 +950,7 @@ class SMPose(SMUserList):
             >>> SE3.Rx(pi/2) * np.r_[0, 0, 1]
             array([ 0.000000e+00, -1.000000e+00,  6.123234e-17])
         """
-        if isinstance(left, right.__class__):
+        if type(left) == type(right):
             #print('*: pose x pose')
             return left.__class__(left._op2(right, lambda x, y: x @ y), check=False)
 
@@ -1083,7 +1083,7 @@ class SMPose(SMUserList):
         =========   ==========   ====  =====================================
 
         """
-        if isinstance(left, right.__class__):
+        if type(left) == type(right):
             return left.__class__(left._op2(right.inv(), lambda x, y: x @ y), check=False)
         elif base.isscalar(right):
             return left._op2(right, lambda x, y: x / y)
